@@ -38,6 +38,35 @@ use crate::{
 
 use super::expression::process_dot_name;
 
+/// If the token in front of a function body - the `function` keyword, or the name of the function - is followed by a single
+/// line comment, the function body has to start a new line: its first token would otherwise become part of the comment
+fn function_body_below_comment(
+    ctx: &Context,
+    preceding_token: &TokenReference,
+    function_body: FunctionBody,
+    shape: Shape,
+) -> FunctionBody {
+    if !preceding_token.has_trailing_comments(CommentSearch::Single) {
+        return function_body;
+    }
+
+    let leading_trivia = FormatTriviaType::Append(vec![
+        create_newline_trivia(ctx),
+        create_indent_trivia(ctx, shape),
+    ]);
+
+    #[cfg(feature = "luau")]
+    if let Some(generics) = function_body.generics() {
+        let generics = generics.update_leading_trivia(leading_trivia);
+        return function_body.with_generics(Some(generics));
+    }
+
+    let parameters_parentheses = function_body
+        .parameters_parentheses()
+        .update_leading_trivia(leading_trivia);
+    function_body.with_parameters_parentheses(parameters_parentheses)
+}
+
 /// Formats an Anonymous Function
 /// This doesn't have its own struct, but it is part of Value::Function
 pub fn format_anonymous_function(
@@ -51,6 +80,7 @@ pub fn format_anonymous_function(
         .update_trailing_trivia(FormatTriviaType::Append(function_definition_trivia));
     let function_body =
         format_function_body(ctx, &anonymous_function.1, shape.add_width(FUNCTION_LEN));
+    let function_body = function_body_below_comment(ctx, &function_token, function_body, shape);
 
     Box::new((function_token, function_body))
 }
@@ -1283,6 +1313,8 @@ pub fn format_local_function(
     let shape = shape + (6 + 9 + strip_trivia(&formatted_name).to_string().len()); // 6 = "local ", 9 = "function "
     let function_body = format_function_body(ctx, local_function.body(), shape)
         .update_trailing_trivia(FormatTriviaType::Append(trailing_trivia));
+    let function_body =
+        function_body_below_comment(ctx, &formatted_name, function_body, shape);
 
     LocalFunction::new(formatted_name)
         .with_local_token(local_token)
